@@ -32,21 +32,23 @@ void ldb_free(void *p) { free(p); }
 /* internal-key copy: the destination aliases the source bytes (content copy itself: buf.* / fmt.*) */
 void ldb_ikey_init(ldb_buffer_t *z) { z->data = NULL; z->size = 0; z->alloc = 0; }
 void ldb_ikey_copy(ldb_buffer_t *z, const ldb_buffer_t *x) { z->data = x->data; z->size = x->size; z->alloc = 0; }
-/* empty deleted-files set: the iteration over it ends at once */
+/* deleted-files set as the export loop sees it: g_dn entries (0 unless a harness sets it), visited in set order */
+rb_node_t g_dnode[3]; unsigned g_dn, g_di;
 void ldb_rb_iter_init(rb_iter_t *iter, const rb_tree_t *tree) { }
-void ldb_rb_iter_start(rb_iter_t *iter, const rb_tree_t *tree) { }
-int ldb_rb_iter_valid(const rb_iter_t *iter) { return 0; }
-void ldb_rb_iter_first(rb_iter_t *iter) { }
-void ldb_rb_iter_next(rb_iter_t *iter) { }
+void ldb_rb_iter_start(rb_iter_t *iter, const rb_tree_t *tree) { g_di = 0; iter->tree = tree; iter->node = &g_dnode[0]; }
+int ldb_rb_iter_valid(const rb_iter_t *iter) { return g_di < g_dn; }
+void ldb_rb_iter_first(rb_iter_t *iter) { g_di = 0; iter->node = &g_dnode[0]; }
+void ldb_rb_iter_next(rb_iter_t *iter) { g_di++; iter->node = &g_dnode[g_di < 2 ? g_di : 2]; }
 /* export: the emitted byte stream is the sequence of these calls */
 #define EV_V32 1
 #define EV_V64 2
 #define EV_LPS 3
-unsigned g_nev; int g_evk[12]; uint64_t g_evv[12]; const void *g_evp[12];
-static void ev(int k, uint64_t v, const void *p) { __CPROVER_assert(g_nev < 12, "export: no more output than the edit's fields"); g_evk[g_nev] = k; g_evv[g_nev] = v; g_evp[g_nev] = p; g_nev++; }
+unsigned g_nev; int g_evk[40]; uint64_t g_evv[40]; const void *g_evp[40];
+static void ev(int k, uint64_t v, const void *p) { __CPROVER_assert(g_nev < 40, "export: no more output than the edit's fields"); g_evk[g_nev] = k; g_evv[g_nev] = v; g_evp[g_nev] = p; g_nev++; }
 void ldb_buffer_varint32(ldb_buffer_t *z, uint32_t x) { ev(EV_V32, x, z); }
 void ldb_buffer_varint64(ldb_buffer_t *z, uint64_t x) { ev(EV_V64, x, z); }
 void ldb_buffer_export(ldb_buffer_t *z, const ldb_buffer_t *x) { ev(EV_LPS, 0, x); }
+void ldb_ikey_export(ldb_buffer_t *z, const ldb_buffer_t *x) { ev(EV_LPS, 1, x); }
 
 #include "version_edit.c"
 
@@ -145,6 +147,39 @@ void h_export(void) {
   if (e.has_last_sequence) { CHECK(g_evk[i] == EV_V32 && g_evv[i] == 4 && g_evk[i + 1] == EV_V64 && g_evv[i + 1] == e.last_sequence, "export: tag 4 + varint64 last sequence"); i += 2; }
   CHECK(g_nev == i, "export: nothing else is emitted for an edit without file lists; absent fields are not emitted");
   for (i = 0; i < g_nev; i++) CHECK(g_evp[i] == &dst || g_evk[i] == EV_LPS, "export: everything goes to the destination buffer");
+  CANARY();
+}
+
+/* ---- edit.export_lists: the list part of an edit (compact pointers, deleted files, new files) is written completely and in
+ * the standard order; in particular EVERY deleted-file entry is written, also when the same file number is added again at
+ * another level by the same edit (a trivial move: delete (L, n) + add (L+1, n)) ---- */
+void h_export_lists(void) {
+  ldb_edit_t e; ldb_buffer_t dst;
+  file_entry_t d[2]; meta_entry_t m[2]; ikey_entry_t c[1];
+  void *nf_items[2], *cp_items[1];
+  unsigned nd = nondet_int() & 3, nn = nondet_int() & 3, nc = nondet_int() & 1, i = 0, k;
+  __CPROVER_assume(nd <= 2 && nn <= 2);
+  fresh_edit(&e);
+  e.has_comparator = e.has_log_number = e.has_prev_log_number = e.has_next_file_number = e.has_last_sequence = 0;
+  g_dnode[0].key.ptr = &d[0]; g_dnode[1].key.ptr = &d[1]; g_dnode[2].key.ptr = NULL; g_dn = nd;
+  nf_items[0] = &m[0]; nf_items[1] = &m[1]; e.new_files.items = nf_items; e.new_files.length = nn; e.new_files.alloc = 2;
+  cp_items[0] = &c[0]; e.compact_pointers.items = cp_items; e.compact_pointers.length = nc; e.compact_pointers.alloc = 1;
+  g_nev = 0;
+  ldb_edit_export(&dst, &e);
+  if (nc) { CHECK(g_evk[i] == EV_V32 && g_evv[i] == 5 && g_evk[i + 1] == EV_V32 && g_evv[i + 1] == (uint64_t)(uint32_t)c[0].level && g_evk[i + 2] == EV_LPS && g_evp[i + 2] == &c[0].key,
+                  "export: compact pointer = tag 5, level, length-prefixed internal key"); i += 3; }
+  for (k = 0; k < 2; k++) if (k < nd) {
+    CHECK(g_evk[i] == EV_V32 && g_evv[i] == 6 && g_evk[i + 1] == EV_V32 && g_evv[i + 1] == (uint64_t)(uint32_t)d[k].level && g_evk[i + 2] == EV_V64 && g_evv[i + 2] == d[k].number,
+          "export: EVERY deleted-file entry is written as tag 6, level, number - whatever else the edit contains");
+    i += 3;
+  }
+  for (k = 0; k < 2; k++) if (k < nn) {
+    CHECK(g_evk[i] == EV_V32 && g_evv[i] == 7 && g_evk[i + 1] == EV_V32 && g_evv[i + 1] == (uint64_t)(uint32_t)m[k].level && g_evk[i + 2] == EV_V64 && g_evv[i + 2] == m[k].meta.number &&
+          g_evk[i + 3] == EV_V64 && g_evv[i + 3] == m[k].meta.file_size && g_evk[i + 4] == EV_LPS && g_evp[i + 4] == &m[k].meta.smallest && g_evk[i + 5] == EV_LPS && g_evp[i + 5] == &m[k].meta.largest,
+          "export: new file = tag 7, level, number, size, smallest, largest");
+    i += 6;
+  }
+  CHECK(g_nev == i, "export: compact pointers, then deleted files, then new files - nothing else, nothing missing");
   CANARY();
 }
 
